@@ -4,10 +4,36 @@
 package extract
 
 //@ func Attestation
-//@   modifies *
+//@   modifies pbsrc, pbok, marshalOf
 //@   assigns nothing
 //@   ensures err == nil ==> result != nil
 
-//@ func Endorsement
-//@   modifies *
+//@ func fromSevSnpAttestationProto
 //@   assigns nothing
+//@   ensures[C16] result1 != "" ==> at != nil && at.Report != nil && exists(m, BV, bvlen(m) == 48 && result1 == sevObjectName("ovmf_x64_csm", m), val(at.Report.Measurement))
+//@   ensures[C16] err != nil ==> result1 == ""
+
+//@ func fromTdxAttestationProto
+//@   assigns nothing
+//@   ensures[C16] err == nil ==> at != nil && at.TdQuoteBody != nil && exists(m, BV, bvlen(m) == 48 && result0 == tdxObjectName(m), val(at.TdQuoteBody.MrTd))
+//@   ensures[C16] err != nil ==> result0 == ""
+
+//@ func (*Options).fromQuote
+//@   assigns nothing
+//@   modifies pbsrc, pbok, marshalOf
+//@   ghostset lastLocal = val(endorsement)
+//@   ghostset lastLocalFound = (err == nil && len(endorsement) > 0)
+//@   ensures[C16] objectName != "" ==> exists(m, BV, bvlen(m) == 48 && (objectName == sevObjectName("ovmf_x64_csm", m) || objectName == tdxObjectName(m)))
+
+//@ func (*Options).fromEventLog
+//@   assigns nothing
+//@   modifies *
+
+//@ func Endorsement
+//@   assigns nothing
+//@   modifies *
+//@   sweep[C16] nilinvoke
+//@   ensures[C16] err == nil && opts != nil && !opts.ForceFetch && opts.EventLogLocation == "" && getterCalls == old(getterCalls) ==> lastLocalFound
+//@   ensures[C16] err == nil && opts != nil && !opts.ForceFetch && opts.EventLogLocation == "" && getterCalls == old(getterCalls) ==> val(out) == lastLocal
+//@   ensures[C16] opts != nil && !opts.ForceFetch && opts.EventLogLocation == "" && lastLocalFound ==> getterCalls == old(getterCalls)
+//@   ensures[C16] getterCalls <= old(getterCalls) + 1 || (opts != nil && opts.EventLogLocation != "" && !opts.ForceFetch)
